@@ -74,10 +74,20 @@ Eval vm_compute in
    "site : holds H, then acquires L directly | via f1 -> f2 -> acquisition site'" -- and bin/check copies
    them from the build log (between the markers) into the replay file *)
 Goal True. idtac "@@C20-VIOLATIONS-BEGIN". Abort.
-Eval vm_compute in (explain repo_graph known_sites).
+Eval vm_compute in
+  (explain repo_graph known_sites ++ explain_pairs repo_graph ++ explain_ungated repo_graph)%list.
 Goal True. idtac "@@C20-VIOLATIONS-END". Abort.
 
 Theorem C20_repo : check repo_graph not_linked known_sites = true.
+Proof. vm_compute. reflexivity. Qed.
+
+(* a listed site excuses only the listed (held, acquired) pairs *)
+Theorem C20_known_pairs_pinned : pairs_pinned repo_graph = true.
+Proof. vm_compute. reflexivity. Qed.
+
+(* the wasm gate: every export that touches a shared lock outside the SAITO mutex is one of the reviewed
+   [known_ungated]; an export that newly loses or delays its gate breaks this obligation *)
+Theorem C20_ungated_pinned : ungated_pinned repo_graph = true.
 Proof. vm_compute. reflexivity. Qed.
 
 (* ---- non-vacuity ---- *)
@@ -139,3 +149,5 @@ Print Assumptions C20_ordered_no_deadlock.
 Print Assumptions C20_no_deadlock.
 Print Assumptions C20_ranks_match_source.
 Print Assumptions C20_repo.
+Print Assumptions C20_known_pairs_pinned.
+Print Assumptions C20_ungated_pinned.
